@@ -19,7 +19,7 @@ ORACLE = "R-clean: every remove/rmdir by the director or by `stepup clean` is ju
 DESIGN_REF = "DESIGN.md section 7 (C06)"
 RULE = (
     "history scenarios whose plan edits orphan outputs, plus user vandalism before builds "
-    "(overwrite/delete/replace-by-directory of orphaned and active outputs, user files in output "
+    "(overwrite, same-size replacement by rename that keeps mode and mtime, delete, replace-by-directory of orphaned and active outputs, user files in output "
     "directories, adoption of a former output as a source), all combinations of clean/no-clean, "
     "keep-going and targets, and invocations of the real clean() with random paths and flags "
     "between builds. Distinct = distinct scenario rendering + vandalism + clean calls; "
